@@ -41,7 +41,7 @@ func collectStringKeyMaps(v reflect.Value) []reflect.Value {
 				walk(v.Index(i), depth+1)
 			}
 		case reflect.Map:
-			if v.Type().Key().Kind() == reflect.String && v.Len() > 0 && v.CanSet() {
+			if k := v.Type().Key().Kind(); (k == reflect.String || k == reflect.Int32 || k == reflect.Int64) && v.Len() > 0 && v.CanSet() {
 				out = append(out, v)
 			}
 		}
@@ -53,6 +53,25 @@ func collectStringKeyMaps(v reflect.Value) []reflect.Value {
 // rekey moves one entry (chosen deterministically) of a map[string]T to a key from the special strings; keys that are
 // not valid UTF-8 are left to the slice-backed variant (known finding F25 is about them).
 func (m *mutator) rekey(mp reflect.Value) {
+	if k := mp.Type().Key().Kind(); k == reflect.Int32 || k == reflect.Int64 {
+		// integer keys: FillRandom only draws non-negative ones; move one entry to a boundary value (far apart, both signs)
+		keys := make([]int64, 0, mp.Len())
+		for _, k := range mp.MapKeys() {
+			keys = append(keys, k.Int())
+		}
+		sort.Slice(keys, func(i, j int) bool { return keys[i] < keys[j] })
+		old := reflect.ValueOf(keys[int(m.r.next()%uint64(len(keys)))]).Convert(mp.Type().Key())
+		var nk int64
+		if k == reflect.Int32 {
+			nk = int64(int32Edges[m.r.next()%uint64(len(int32Edges))])
+		} else {
+			nk = int64Edges[m.r.next()%uint64(len(int64Edges))]
+		}
+		val := mp.MapIndex(old)
+		mp.SetMapIndex(old, reflect.Value{})
+		mp.SetMapIndex(reflect.ValueOf(nk).Convert(mp.Type().Key()), val)
+		return
+	}
 	keys := make([]string, 0, mp.Len())
 	for _, k := range mp.MapKeys() {
 		keys = append(keys, k.String())
